@@ -19,12 +19,12 @@ RULE = ("seeded trees (hidden files, nested directories, symlinks to files and t
 ASSUMPTIONS = ["git 2.39's check-ignore is the reference for 'git's pattern semantics'",
                "only patterns from the grammar in the property's quantifier are generated (no character classes, escapes, trailing spaces)"]
 
-NAMES = ["a", "b", "build", "target", "foo", "foo.txt", "bar.o", "lib.o", "main.c", "notes", "tmp", ".hidden", ".cache", "x1", "x2", "doc", "out", "été".encode("utf-8").decode("latin-1")]
+NAMES = ["Build", "A", "a", "b", "build", "target", "foo", "foo.txt", "bar.o", "lib.o", "main.c", "notes", "tmp", ".hidden", ".cache", "x1", "x2", "doc", "out", "été".encode("utf-8").decode("latin-1")]
 
 
-def gen_tree(r):
-    spec = [{"p": "src", "k": "d"}]
-    dirs, files, links = ["src"], [], []
+def gen_tree(r, top="src"):
+    spec = [{"p": top, "k": "d"}]
+    dirs, files, links = [top], [], []
 
     def rec(d, depth):
         used = set()
@@ -43,16 +43,17 @@ def gen_tree(r):
                 dirs.append(p)
                 rec(p, depth + 1)
             else:
-                tgt = r.choice(dirs + files) if (dirs + files) else "src"
+                tgt = r.choice(dirs + files) if (dirs + files) else top
                 spec.append({"p": p, "k": "l", "target": os.path.relpath(tgt, d) if r.random() < 0.8 else "dangling"})
                 links.append(p)
-    rec("src", 0)
+    rec(top, 0)
     return spec
 
 
 def gen_gitignore(r, spec):
-    names = sorted({os.path.basename(e["p"]) for e in spec if e["p"] != "src"})
-    paths = sorted(e["p"][4:] for e in spec if e["p"].startswith("src/"))
+    top = spec[0]["p"]
+    names = sorted({os.path.basename(e["p"]) for e in spec if e["p"] != top})
+    paths = sorted(e["p"][len(top) + 1:] for e in spec if e["p"].startswith(top + "/"))
     lines, forms = [], set()
     for _ in range(r.randint(1, 7)):
         form = r.choice(["literal", "literal", "star", "qmark", "dstar", "dironly", "anchored", "neg", "comment", "blank", "path", "ext"])
@@ -102,7 +103,13 @@ def gen_cases(tier, seed):
         gi, forms = gen_gitignore(r, spec)
         if any(e["p"] == "src/.gitignore" for e in spec):
             continue
-        yield {"spec": spec, "gitignore": gi, "forms": forms, "driver": driver, "use": r.random() < 0.85, "fs": "ext4",
+        second = None
+        if r.random() < 0.25:
+            # a second source with its own (or no) .gitignore: each source is judged by its own root file only
+            spec2 = gen_tree(r, "src2")
+            gi2, _ = gen_gitignore(r, spec2)
+            second = {"spec": spec2, "gitignore": gi2 if r.random() < 0.7 else None}
+        yield {"second": second, "spec": spec, "gitignore": gi, "forms": forms, "driver": driver, "use": r.random() < 0.85, "fs": "ext4",
                "extra": r.choice([[], [], [], ["--fsync"], ["--no-perms"], ["--no-progress"], ["--reflink", "never"], ["--backup", "auto"]]),
                "srcarg": r.choice(["src", "src", "src/", "./src", "@ROOT@/src"])}
 
@@ -129,21 +136,31 @@ def run_case(case):
     res = {"evals": [], "viol": [], "inconc": [], "counters": {}}
     with core.Sandbox(case["fs"], "c17") as sb:
         root = sb.root
-        tree.materialize(root, case["spec"])
-        srcdir = os.path.join(b(root), b"src")
-        with open(os.path.join(srcdir, b".gitignore"), "wb") as f:
-            f.write(b(case["gitignore"]))
-        pre = tree.snapshot(srcdir, content=False, include_root=False)
-        rels = sorted(pre)
-        ignored = git_ignored(sb, srcdir, rels) if case["use"] else set()
-        # an ignored directory hides everything beneath it
-        expected = set()
-        for p in rels:
-            parts = p.split("/")
-            if any("/".join(parts[:k]) in ignored for k in range(1, len(parts) + 1)):
-                continue
-            expected.add(p)
-        args = ["--driver", case["driver"], "-w", "2", "-r"] + (["--gitignore"] if case["use"] else []) + case.get("extra", []) + [case.get("srcarg", "src"), "dst"]
+        sources = [("src", case["spec"], case["gitignore"])]
+        if case.get("second"):
+            sources.append(("src2", case["second"]["spec"], case["second"]["gitignore"]))
+        expected_all, pre_all, ignored_all = {}, {}, {}
+        for top, spec, gi in sources:
+            tree.materialize(root, spec)
+            srcdir = os.path.join(b(root), b(top))
+            if gi is not None:
+                with open(os.path.join(srcdir, b".gitignore"), "wb") as f:
+                    f.write(b(gi))
+            pre = tree.snapshot(srcdir, content=False, include_root=False)
+            rels = sorted(pre)
+            ignored = git_ignored(sb, srcdir, rels) if (case["use"] and gi is not None) else set()
+            expected = set()
+            for p in rels:
+                parts = p.split("/")
+                if any("/".join(parts[:k]) in ignored for k in range(1, len(parts) + 1)):
+                    continue
+                expected.add(p)
+            expected_all[top], pre_all[top], ignored_all[top] = expected, pre, ignored
+        two = len(sources) > 1
+        if two:
+            os.mkdir(os.path.join(b(root), b"dst"))
+        args = ["--driver", case["driver"], "-w", "2", "-r"] + (["--gitignore"] if case["use"] else []) + case.get("extra", [])
+        args += [case.get("srcarg", "src")] + (["src2"] if two else []) + ["dst"]
         args = [a.replace("@ROOT@", root) for a in args]
         run = core.run_plain(core.xcp_argv(args), root)
         if run.verdict != "exited":
@@ -152,25 +169,34 @@ def run_case(case):
         if not run.exit0:
             res["counters"]["nonzero-exit"] = 1
             return res
-        post = tree.snapshot(os.path.join(b(root), b"dst"), content=False, include_root=False)
-        got = set(post)
-        tag = "driver=%s gitignore=%r" % (case["driver"], case["gitignore"])
-        for p in sorted(expected - got)[:3]:
-            kind = pre[p]["k"]
-            lk = ""
-            if kind == "l":
-                lk = "-to-dir" if os.path.isdir(os.path.join(srcdir, b(p))) else "-to-other"
-            res["viol"].append({"sig": "%s:wrongly-excluded:%s%s" % (case["driver"] if False else "any", kind, lk),
-                                "what": "%r (%s%s) is not ignored by git but was not copied; %s" % (p, kind, lk, tag)})
-        for p in sorted(got - expected)[:3]:
-            kind = pre[p]["k"] if p in pre else "?"
-            res["viol"].append({"sig": "any:wrongly-copied:%s" % kind, "what": "%r (%s) is ignored by git (or lies under an ignored directory) but was copied; %s" % (p, kind, tag)})
-        if not case["use"] and got != set(rels):
-            res["viol"].append({"sig": "any:filtered-without-option", "what": "without --gitignore the destination lacks %s; %s" % (sorted(set(rels) - got)[:3], tag)})
-        decided = {pre[p]["k"] for p in rels}
-        res["evals"].append({"key": [case["driver"], case["forms"], bool(ignored), "l" in decided, any(os.path.basename(p).startswith(".") for p in ignored), case["use"]],
-                             "sample": {"gitignore": case["gitignore"], "paths": rels[:12], "git_ignored": sorted(ignored)[:8], "copied": len(got), "args": args}})
+        for top, spec, gi in sources:
+            expected, pre, ignored = expected_all[top], pre_all[top], ignored_all[top]
+            rels = sorted(pre)
+            dpath = os.path.join(b(root), b"dst", b(top)) if two else os.path.join(b(root), b"dst")
+            post = tree.snapshot(dpath, content=False, include_root=False)
+            got = set(post)
+            tag = "driver=%s source=%s%s gitignore=%r" % (case["driver"], top, " (second of two)" if two and top == "src2" else "", gi)
+            srcdir = os.path.join(b(root), b(top))
+            for p in sorted(expected - got)[:3]:
+                kind = pre[p]["k"]
+                lk = ""
+                if kind == "l":
+                    lk = "-to-dir" if os.path.isdir(os.path.join(srcdir, b(p))) else "-to-other"
+                res["viol"].append({"sig": "any:wrongly-excluded:%s%s" % (kind, lk),
+                                    "what": "%r (%s%s) is not ignored by git but was not copied; %s" % (p, kind, lk, tag)})
+            for p in sorted(got - expected)[:3]:
+                kind = pre[p]["k"] if p in pre else "?"
+                res["viol"].append({"sig": "any:wrongly-copied:%s" % kind, "what": "%r (%s) is ignored by git (or lies under an ignored directory) but was copied; %s" % (p, kind, tag)})
+            if not case["use"] and got != set(rels):
+                res["viol"].append({"sig": "any:filtered-without-option", "what": "without --gitignore the destination lacks %s; %s" % (sorted(set(rels) - got)[:3], tag)})
+            res["counters"]["paths-decided"] = res["counters"].get("paths-decided", 0) + len(rels)
+            res["counters"]["paths-git-ignored"] = res["counters"].get("paths-git-ignored", 0) + len(set(rels) - expected)
+        pre, ignored = pre_all["src"], ignored_all["src"]
+        decided = {pre[p]["k"] for p in pre}
+        res["evals"].append({"key": [case["driver"], case["forms"], bool(ignored), "l" in decided, any(os.path.basename(p).startswith(".") for p in ignored), case["use"], two],
+                             "sample": {"gitignore": case["gitignore"], "paths": sorted(pre)[:12], "git_ignored": sorted(ignored)[:8], "args": args,
+                                        "second_source_gitignore": case["second"]["gitignore"] if two else None}})
         res["counters"]["exit0"] = 1
-        res["counters"]["paths-decided"] = len(rels)
-        res["counters"]["paths-git-ignored"] = len(set(rels) - expected)
+        if two:
+            res["counters"]["two-source-runs"] = 1
     return res
